@@ -120,6 +120,7 @@ def work(item):
     ev = [(phi.get(a, F) if v else z3.Not(phi.get(a, F))) for a, v in G.evidence]
     phi_e = z3.And(*ev) if ev else z3.BoolVal(True)
     legal = refsem.legal_constraints(G)
+    logical = list(legal)
     # worlds of probability zero are not candidates: an AD summing to one must choose a head
     for g in G.groups:
         if sum(values[pr] for pr, _ in g.heads) == 1 and len(g.heads) > 1:
@@ -149,6 +150,17 @@ def work(item):
     s.push()
     s.add(phi_e)
     sat_e = chk()
+    zero_mass_only = False
+    if sat_e == "unsat" and len(logical) != len(legal):
+        # the evidence may still hold in an assignment of probability zero (no head of an AD that sums to one): then the
+        # property does not say whether 'unsatisfiable' or a world of probability 0 is the right answer - both are accepted
+        s2 = z3.Solver()
+        s2.set("timeout", 20000)
+        for c in logical:
+            s2.add(c)
+        s2.add(phi_e)
+        zero_mass_only = str(s2.check()) == "sat"
+        st["queries"] += 1
     best = None
     if sat_e == "sat":
         # the optimum itself is not computed by enumeration: obligations are existential queries
@@ -189,6 +201,9 @@ def work(item):
             else:
                 st.ob("refuted", key=okey)
                 violation("unsat-reported", "reports an unsatisfiable model but the evidence is satisfiable")
+            continue
+        if sat_e == "unsat" and zero_mass_only and prob is not None and abs(prob) <= 1e-12:
+            st.ob("proved", key=okey + ":zero-probability-evidence")
             continue
         if sat_e == "unsat":
             st.ob("refuted", key=okey)
